@@ -607,6 +607,33 @@ class C14(Spec):
                  "cases": r["tried"], "failures": r["failures"], "replay_kind": "ptr", "label": "bounded (not counted as proof)"}]
 
 
+class C19(Spec):
+    pid = "C19"
+    level = "proof"
+    design_ref = "DESIGN.md section 8 C19"
+    trusted = ["the file system is an environment function FS(path) in {unreadable, json(v)}; _Outputter.load is ASSUMED to return v for json(v) and otherwise to write one diagnostic and raise _CannotLoadFile (its body - open/ENOENT/json.load - is exercised only by the bounded stand-in)",
+               "argparse, the formatters' texts (incl. traceback formatting) and process start-up are not modelled: covered by the bounded stand-in",
+               "library calls (validator_for, check_schema, the validator constructor, iter_errors) are used through their contracts (C20, C04)"]
+    assumptions = ["the instance list is an arbitrary finite sequence of paths; with no -i option one instance is read from standard input"]
+    explanation = "cli.run is proved, with the loop invariant `exit_code == 1 iff some instance among the first k was unreadable or invalid`, to return 0 exactly when the schema file loads, passes check_schema of the selected / given class and every instance loads and is valid; to return non-zero before constructing the validator for a missing, unparsable or invalid schema; to process every listed instance (the loop has no break/return and catches _CannotLoadFile inside); --base-uri builds the resolver from that URI and the schema. _validate_instance is proved to report every library error and to write the success message iff there was none."
+
+    def tasks(self, root, tier):
+        from contracts import tasks_cli
+        return tasks_cli.cli_tasks(root, _tmo(tier))
+
+    def select(self, ob, r):
+        return True
+
+    def failure_kinds(self):
+        return ("C",)
+
+    def standins(self, root, tier):
+        from pyvc import driver
+        r = driver.rt_call("pyvc.rt_cli", {"cmd": "search", "root": root, "maxn": 3 if tier == "thorough" else 2}, root, timeout=3000)
+        return [{"name": "cli-scenarios", "scope": "schema file {valid, invalid, missing, not JSON} x every list of <= %d instance files over {valid, invalid with 1 and 2 errors, missing, not JSON} (or one instance on stdin) x {plain with --error-format, pretty, default}; --validator with three draft classes; --base-uri with a local fragment reference; real files, real cli.parse_args + cli.run" % (3 if tier == "thorough" else 2),
+                 "cases": r["tried"], "failures": r["failures"], "replay_kind": "cli", "label": "bounded (not counted as proof)"}]
+
+
 class C20(Spec):
     pid = "C20"
     level = "proof"
@@ -874,4 +901,4 @@ class C08(Spec):
         return out
 
 
-SPECS = {"C01": C01, "C03": C03, "C04": C04, "C05": C05, "C11": C11, "C12": C12, "C13": C13, "C14": C14, "C16": C16, "C17": C17, "C20": C20, "C07": C07, "C18": C18, "C06": C06, "C08": C08, "C09": C09, "C10": C10}
+SPECS = {"C01": C01, "C03": C03, "C04": C04, "C05": C05, "C11": C11, "C12": C12, "C13": C13, "C14": C14, "C16": C16, "C17": C17, "C19": C19, "C20": C20, "C07": C07, "C18": C18, "C06": C06, "C08": C08, "C09": C09, "C10": C10}
